@@ -376,7 +376,10 @@ impl<'a, W: 'static, R: 'static, T: 'static> RuntimeScope<'a, W, R, T> {
                             let args = args
                                 .iter()
                                 .map(|x| self.eval(x, rt.clone(), false).map(|r| r.unwrap_value()))
-                                .collect::<Result<_, _>>()?;
+                                .collect::<Result<Vec<_>, _>>()?;
+                            if let Some(err) = args.iter().find_map(|a| a.as_ref().err()) {
+                                return Ok(TailedEvalResult::Value(Err(err.clone())));
+                            }
                             return Ok(TailedEvalResult::TailCall(args));
                         }
                     }
@@ -405,6 +408,10 @@ impl<'a, W: 'static, R: 'static, T: 'static> RuntimeScope<'a, W, R, T> {
                     .iter()
                     .map(|e| self.eval(e, rt.clone(), false).map(|r| r.unwrap_value()))
                     .collect::<Result<Vec<_>, _>>()?;
+                // an error argument is the result of the call, the function is not evaluated
+                if let Some(err) = args.iter().find_map(|a| a.as_ref().err()) {
+                    return Ok(TailedEvalResult::Value(Err(err.clone())));
+                }
                 self.eval_func_with_values(func, args, rt, tail_available)
             }
         }
